@@ -95,9 +95,9 @@ StepNames == {"P04_FlagTakesEffect", "P03_RoleOpsExact", "P18_UserNameBound", "P
 
 \* state predicates (on the recorded post-state and the history after the step)
 StatePred(name, w2, h2) ==
-  CASE name = "Conservation" -> Conservation(w2, h2) [] name = "NoNegative" -> NoNegative(w2) [] name = "WellFormed" -> WellFormed(w2, h2)
+  CASE name = "Conservation" -> Conservation(w2, h2) [] name = "TransferConservation" -> TransferConservation(w2, h2) [] name = "NoNegative" -> NoNegative(w2) [] name = "WellFormed" -> WellFormed(w2, h2)
     [] name = "SysClean" -> SysClean(w2) [] name = "CounterWithRole" -> CounterWithRole(w2, h2) [] OTHER -> TRUE
-StateNames == {"Conservation", "NoNegative", "WellFormed", "SysClean", "CounterWithRole"}
+StateNames == {"TransferConservation", "Conservation", "NoNegative", "WellFormed", "SysClean", "CounterWithRole"}
 
 
 \* vacuity counters: which situations the run exercised
@@ -156,14 +156,15 @@ Step ==
      ELSE
         LET w2 == ln.w
             r == Ref(w, ev)
-            h2 == HistStep(h, w, ev)
+            h2 == HistT(HistStep(h, w, ev), ev, w2)
             bad == {k \in StepNames \cap Checked : ~StepPred(k, w, ev, w2, h, r)} \cup {k \in StateNames \cap Checked : ~StatePred(k, w2, h2)}
             conf == Conforms(w, ev, w2, h, r)
             trig == Triggers(w, ev, w2, r, h) IN
         /\ (bad # {} => PrintT(<<"VIOL", l, bad>>))
         /\ (~conf => PrintT(<<"DRIFT", l, ev.fn, ev.res, r.ok, DiffParts(w, ev, w2, r)>>))
         /\ w' = w2 /\ cfg' = cfg
-        /\ h' = (IF Conservation(w2, h2) THEN h2 ELSE [h2 EXCEPT !.supply = Hist0(w2).supply])   \* re-base so that each break is reported once
+        /\ h' = [h2 EXCEPT !.supply = IF Conservation(w2, h2) THEN @ ELSE Totals(w2),             \* re-base so that each break is reported once
+                           !.tsupply = IF TransferConservation(w2, h2) THEN @ ELSE Totals(w2)]
         /\ nviol' = nviol + Cardinality(bad)
         /\ ndrift' = ndrift + (IF conf THEN 0 ELSE 1)
         /\ cnt' = [k \in Counters |-> cnt[k] + (IF k \in trig THEN 1 ELSE 0)]
